@@ -56,7 +56,15 @@ func genC14(rng *rand.Rand, c *Case) {
 	for i := 0; i < n; i++ {
 		k := 3 + rng.Intn(10)
 		for j := 0; j < k; j++ {
-			switch rng.Intn(10) {
+			switch rng.Intn(12) {
+			case 10, 11:
+				// any registered request type with plausible (existing or missing) targets: exercises rarely used
+				// reply branches; for these only "well-formed, at most one reply, never misdirected" is judged
+				// issued only by clients that leave early: such a request may legitimately end the connection,
+				// and leavers are never the target of other clients' requests
+				if i >= n-c.Cfg["leavers"] {
+					c.Ops = append(c.Ops, Op{C: i, K: "cat", N: []int{rng.Intn(len(Catalogue)), rng.Intn(1 << 30)}})
+				}
 			case 0:
 				c.Ops = append(c.Ops, Op{C: i, K: "keepalive"})
 			case 1:
@@ -87,12 +95,14 @@ func runC14(w *World) {
 	rng := rand.New(rand.NewSource(w.Case.Seed ^ 0xc14))
 	w.WriteFile("MessageBoard.txt", randText(rng, cfg["board"]))
 	w.WriteFile("Agreement.txt", randText(rng, cfg["agreement"]))
+	must(os.MkdirAll(filepath.Join(w.FileRoot, "sub"), 0755))
 	for i := 0; i < cfg["files"]; i++ {
 		must(os.WriteFile(filepath.Join(w.FileRoot, fmt.Sprintf("file-%04d-%s.dat", i, strings.Repeat("x", i%20))), []byte("x"), 0644))
 	}
 	w.StartServer()
 	var barrier simrt.WaitQ
 	ready := 0
+	catReq := map[int][]uint32{} // client -> ids of catalogue requests (not required to be answered)
 	ids := map[int]uint16{}
 	stable := n - cfg["leavers"] // clients [0,stable) stay connected for the whole run
 	for i := 0; i < n; i++ {
@@ -145,6 +155,19 @@ func runC14(w *World) {
 				case "info":
 					tgt := op.N[0] % stable
 					c.Request(rp.TGetClientInfoText, rp.F16(rp.FUserID, ids[tgt]))
+				case "cat":
+					spec := Catalogue[op.N[0]%len(Catalogue)]
+					if spec.Type == rp.TDisconnectUser || spec.Type == rp.TAgreed || spec.Type == rp.TDeleteUser || spec.Type == rp.TSetUser || spec.Type == rp.TUpdateUser {
+						continue // would legitimately remove users / accounts other clients depend on
+					}
+					env := &valueEnv{Names: []string{"file-0000-.dat", "missing", "sub"}, Paths: [][]string{{"sub"}, {"nowhere"}}, Logins: []string{"guest", "ghost"}, Cats: []string{"General"}}
+					for k := 0; k < stable; k++ {
+						env.UIDs = append(env.UIDs, ids[k])
+					}
+					crng := rand.New(rand.NewSource(int64(op.N[1])))
+					id := c.Request(spec.Type, env.ValidRequest(crng, spec)...)
+					catReq[idx] = append(catReq[idx], id)
+					w.Probe("catalogue_requests")
 				}
 			}
 			if idx >= stable {
@@ -169,7 +192,7 @@ func runC14(w *World) {
 			w.Violate("c14-malformed-stream", "client %d: byte stream from the server is not a concatenation of well-formed transactions: %v", c.Idx, c.FrameErr)
 			continue
 		}
-		if c.parsed < len(c.Raw) && c.Idx < stable { // a client that hung up may of course hold a cut-off last transaction
+		if c.parsed < len(c.Raw) && c.Idx < stable && !c.Closed { // a client that hung up may of course hold a cut-off last transaction
 			w.Violate("c14-partial-frame-at-quiescence", "client %d: %d bytes after the last complete transaction never became a complete transaction (stream offset %d, header says total size %d)", c.Idx, len(c.Raw)-c.parsed, c.parsed, partialTotal(c.Raw[c.parsed:]))
 			continue
 		}
@@ -209,14 +232,18 @@ func runC14(w *World) {
 				w.Violate("c14-unexpected-type", "client %d received non-reply transaction of type %d", c.Idx, r.T.Type)
 			}
 		}
+		isCat := map[uint32]bool{}
+		for _, id := range catReq[c.Idx] {
+			isCat[id] = true
+		}
 		if c.Idx < stable && !c.Closed && c.LoggedIn {
 			for id, typ := range c.Sent {
-				if len(c.Replies[id]) == 0 {
+				if len(c.Replies[id]) == 0 && !isCat[id] {
 					w.Violate(fmt.Sprintf("c14-unanswered-%d", typ), "client %d: request id %d (type %d) is answered when issued alone but got no reply under load", c.Idx, id, typ)
 				}
 			}
 		}
-		if c.Idx < stable && c.Closed {
+		if c.Idx < stable && c.Closed && len(catReq[c.Idx]) == 0 {
 			w.Violate("c14-connection-lost", "client %d (well-behaved, stays connected) lost its connection: %v", c.Idx, c.CloseErr)
 		}
 	}
